@@ -102,6 +102,13 @@ def make_flow(user_calls=(), inline=(), track=('out_error',), assume=None,
             return ('CALL:' + nm,), True
         if d.startswith('logger') or d.startswith('logging'):
             return (), False
+        if isinstance(call.func, ast.Attribute) and nm in (
+                'debug', 'info', 'warning', 'warn', 'error', 'exception',
+                'critical') and isinstance(call.func.value, ast.Name) and (
+                'log' in call.func.value.id or
+                call.func.value.id.startswith('__inl')):
+            # a logger reached through a local (e.g. chosen by a helper)
+            return (), False
         if nm in ('isinstance', 'len', 'Fault', 'iter', 'isgenerator',
                   'get_fault_string_from_exception', 'startswith'):
             return (), False
@@ -715,6 +722,24 @@ def rule_r4(prog, res):
     loops = [n for n in walk_no_defs(g.node) if isinstance(n, ast.For)]
     inner_ok = any(isinstance(lp.iter, ast.Name) and any(
         call_name(c) in ('add',) for c in calls_in(lp)) for lp in loops)
+    if not inner_ok:
+        # bulk form: <fresh oset>.extend(<base's set>), where oset.extend walks
+        # its argument in order and de-duplicates
+        ext = [c for c in calls_in(g.node) if call_name(c) == 'extend' and
+               isinstance(c.func, ast.Attribute) and isinstance(
+               c.func.value, ast.Name) and c.func.value.id in fresh_vars and
+               len(c.args) == 1 and isinstance(c.args[0], ast.Name)]
+        oc = prog.cls('spyne.util.oset:oset', required=False)
+        oe = oc.methods.get('extend') if oc is not None else None
+        walks = oe is not None and any(
+            isinstance(lp, ast.For) and isinstance(lp.iter, ast.Name) and
+            lp.iter.id in oe.params() and any(
+                call_name(c) == 'add' or 'self.map' in unparse(c)
+                for c in calls_in(lp)) or any(
+                isinstance(x, ast.Compare) and 'self.map' in unparse(x)
+                for x in ast.walk(lp))
+            for lp in walk_no_defs(oe.node) if isinstance(lp, ast.For))
+        inner_ok = bool(ext) and walks
     res.ob('R4', g.where, 'collector copies handlers in the base\'s order',
            'ok' if inner_ok else 'VIOLATED')
     if not inner_ok:
